@@ -141,11 +141,12 @@ static int recsMode(const char *inFile, const char *outFile)
 
 // ---------------------------------------------------------------------------
 // C20: the same call sequence twice (unrelated solver work and allocations in between), and once translated
-static void runHistory(const VInst &I, double delta, std::vector<std::vector<double> > &results)
+static void runHistory(const VInst &I, double delta, std::vector<std::vector<double> > &results, bool *anyUnsat = nullptr)
 {
     Live lv; lv.build(I);
     if (delta != 0) for (auto v : lv.vs) v->desiredPosition += delta;
-    auto snap = [&]() { std::vector<double> r; for (auto v : lv.vs) r.push_back(v->finalPosition); results.push_back(r); };
+    auto snap = [&]() { std::vector<double> r; for (auto v : lv.vs) r.push_back(v->finalPosition); results.push_back(r);
+                        if (anyUnsat) for (auto c : lv.cs) if (c->unsatisfiable) *anyUnsat = true; };
     try { lv.solver->solve(); } catch (...) {}
     snap();
     for (auto &op : I.ops) {
@@ -163,20 +164,29 @@ static int repeatMode(const char *inFile, const char *outFile)
     VInst I, prev; bool first = true, havePrev = false; vt::Rng rng(vt::envSeed());
     while (readInst(in, I)) {
         std::vector<std::vector<double> > A, B, T;
-        runHistory(I, 0, A);
+        bool anyUnsat = false;
+        runHistory(I, 0, A, &anyUnsat);
         std::vector<void *> junk; for (int q = 0; q < 100; q++) junk.push_back(malloc(16 + rng.next() % 700));
         if (havePrev) { std::vector<std::vector<double> > X; runHistory(prev, 0, X); }
         for (size_t q = 0; q < junk.size(); q += 2) free(junk[q]);
         runHistory(I, 0, B);
         for (size_t q = 1; q < junk.size(); q += 2) free(junk[q]);
         int k = (int)(rng.next() % 8193) - 4096;
-        runHistory(I, k / 1024.0, T);
+        runHistory(I, k / 1024.0, T, &anyUnsat);
         vt::J j; j.obj().k("kind").s("vpsc").k("n").i(I.n).k("m").i(I.m).k("k").i(k);
         auto lim = [&](const char *key, std::vector<std::vector<double> > &R) { j.k(key).arr(); for (auto &r : R) { j.arr(); for (double v : r) vt::limbs(j, v); j.end(); } j.end(); };
         lim("A", A); lim("B", B);
-        double dev = 0; bool shape = A.size() == T.size();
-        for (size_t s = 0; shape && s < A.size(); s++) for (size_t v = 0; v < A[s].size(); v++) dev = std::max(dev, fabs(T[s][v] - (A[s][v] + k / 1024.0)));
+        double dev = 0, devSat = 0; bool shape = A.size() == T.size();
+        // snapshot 0 is the initial solve(); then one per solve()/satisfy() call of the history.  satisfy() returns a feasible placement that
+        // is not unique, so its deviation is kept apart from that of solve(), whose result is the unique optimum
+        std::vector<int> snapKind; snapKind.push_back(3); for (auto &op : I.ops) if (op.kind == 3 || op.kind == 4) snapKind.push_back(op.kind);
+        for (size_t s = 0; shape && s < A.size(); s++) for (size_t v = 0; v < A[s].size(); v++) {
+            double dd = fabs(T[s][v] - (A[s][v] + k / 1024.0));
+            if (s < snapKind.size() && snapKind[s] == 4) devSat = std::max(devSat, dd); else dev = std::max(dev, dd);
+        }
         j.k("shape").b(shape).k("devE12").i(std::isfinite(dev) ? (long long)std::min(dev * 1e12, 2e9) : 2000000000);
+        j.k("unsat").b(anyUnsat);      // some constraint was reported unsatisfiable in the run as given or in the translated run
+        j.k("devSatE12").i(std::isfinite(devSat) ? (long long)std::min(devSat * 1e12, 2e9) : 2000000000);
         // independence of identifiers and order: the problem as given against a relabelled copy with shuffled variables and constraints,
         // for both solvers (fresh solve; judged for feasible systems of inequalities over an acyclic graph, where neither solver reports anything)
         {
